@@ -47,6 +47,12 @@ def run(db, tier):
     rep.rule("R-LABEL-CODEC", "label encoders and decoders are overridden together and are inverse operator shapes")
     rep.rule("R-RECOGNISE", "instructions are folded into one statement only behind the preconditions that make the fold reversible")
     rep.rule("R-JUMP-ARGS", "lowering and raising agree on where jump offset/time arguments live")
+    rep.rule("R-LABEL-EMIT", "the time labels the decompiler prints reproduce every stored time (shared with C13: order-abstract "
+                             "evaluation of LabelEmitter over all orderings of prev_time, time and 0)")
+    from props.c13 import _label_emit_orderings
+    le = db.fn("llir::raise::late::LabelEmitter::emit_offset_and_time_labels_with")
+    rep.fn(le)
+    _label_emit_orderings(rep, le)
 
     # ---------------- R-HEADER-CODEC
     fmts = codec.instr_formats(db)
